@@ -3,12 +3,14 @@ import Zed.Model.ZsonFormat
 import Zed.Model.ZsonAnalyze
 import Zed.Model.ZsonQuote
 import Zed.Model.ZsonJson
+import Zed.Model.ZsonGuard
 /-!
   Driver glue for C02.
 
   `(C02 fmt <scope> <persist> (T V) …)`    → `(ast …)`            scope = record | format; persist = nopersist | (persist hexname…)
   `(C02 analyze <scope> ast …)`            → `((ok T V)|(err e) …)` scope = stream | value
   `(C02 rt <scope> <persist> (T V) …)`     → `(ok|changed|(err e) …)` model round trip through a stream reader
+  `(C02 guard (T V))`                      → the theorem's guard: plain=b wfTy=b wfVal=b bareEmpty=b
   `(C02 fmttype T)`                        → type ast
   `(C02 rttype T)`                         → ok | changed | (err e)
   `(C02 quote <kind> <letters-hex> hex)`   → hex of the token; kind = string | name | tname | tnameRaw | enumval;
@@ -288,6 +290,12 @@ def handle : List Sexp → String
     | some p, some tvs, "record" => "(" ++ " ".intercalate (rtSeq true (initF p) tvs) ++ ")"
     | some p, some tvs, "format" => "(" ++ " ".intercalate (rtSeq false (initF p) tvs) ++ ")"
     | _, _, _ => "bad-op"
+  | [.atom "guard", tv] =>
+    match decTV tv with
+    | some (t, v) =>
+      let b (x : Bool) := if x then "1" else "0"
+      s!"plain={b (plainTy t)} wfTy={b (wfTy t)} wfVal={b (wfVal t v)} bareEmpty={b (bareEmpty v)}"
+    | none => "bad-op"
   | [.atom "fmttype", t] =>
     match decTy t with
     | some t => showATy (fmtTypeTop t)
